@@ -71,13 +71,13 @@ MISSED = {
               "slack; `foreign_age` measures the grace the BBMD lists and lets entries age next to one another",
     "C11-13": "every live transaction was waiting for its first reply; allocation while one is in the middle of a segmented answer added",
     "C11-14": "nothing looked at the server bit of an abort a client puts on the wire; `abort_direction` added",
-    "C04-13": "the only server that never answers took unsegmented requests; silent server behind a segmented request added (and the "
-              "run-until-quiet mode of the virtual loop is bounded: the changed stack retried for ever and the check hung)",
     "C04-14": "the IOCB queue ran on a faultless LAN; instance with the first request frame duplicated added",
     "C10-13": "(harness written on reading the seed's description, before it was run: the unchanged check had no answer that does "
               "not fit) `long_answer` added",
     "C10-14": "(as C10-13) no segmented answer was ever abandoned; `half_read` added",
     "C10-15": "(as C10-13) no request with a five-octet array index; `odd_requests` added",
+    "C06-13": "(harness written on reading the seed's description) one packet at a time only; `route_cross` (two discoveries that cross) added",
+    "C06-14": "(as C06-13) stations learned their number before they ever sent; `learn_then_send` added",
     "C10-5": "no frame carried a source network; `routed_noise` (garbage claiming a remote source, then a relayed valid request) added",
 }
 
